@@ -123,21 +123,22 @@ func cpuOpTable(fn *ast.FuncDecl) (t6502, t65c02 map[int]string, err error) {
 			return v.Sel.Name, nil
 		case *ast.FuncLit:
 			// func(c *CPU6502) (uint64, bool) { return N, B }
+			// anything else is a handler the model does not know: `other`
 			if len(v.Body.List) != 1 {
-				return "", fmt.Errorf("function literal with %d statements", len(v.Body.List))
+				return "other", nil
 			}
 			r, ok := v.Body.List[0].(*ast.ReturnStmt)
 			if !ok || len(r.Results) != 2 {
-				return "", fmt.Errorf("function literal is not a single return")
+				return "other", nil
 			}
 			n, ok := intLit(r.Results[0])
 			id, ok2 := r.Results[1].(*ast.Ident)
 			if !ok || !ok2 {
-				return "", fmt.Errorf("function literal return is not <int>, <bool>")
+				return "other", nil
 			}
 			return fmt.Sprintf("lit%d%s", n, id.Name), nil
 		}
-		return "", fmt.Errorf("unexpected handler expression %T", rhs)
+		return "other", nil
 	}
 	walk = func(stmts []ast.Stmt, in6502, in65c02 bool) error {
 		for _, s := range stmts {
@@ -198,6 +199,55 @@ func cpuOpTable(fn *ast.FuncDecl) (t6502, t65c02 map[int]string, err error) {
 	return
 }
 
+// knownHandlers: the constructors of Verif.H (read from Verif/Impl/HandlerNames.lean next to the output
+// directory); nil when that file cannot be read
+var knownHandlers map[string]bool
+
+func loadKnownHandlers(outDir string) {
+	data, err := os.ReadFile(filepath.Join(outDir, "..", "Impl", "HandlerNames.lean"))
+	if err != nil {
+		return
+	}
+	knownHandlers = map[string]bool{}
+	for _, line := range strings.Split(string(data), "\n") {
+		f := strings.Fields(line)
+		if len(f) == 2 && f[0] == "|" {
+			knownHandlers[f[1]] = true
+		}
+	}
+	if len(knownHandlers) < 100 {
+		knownHandlers = nil
+	}
+}
+
+// loadKnownConsts: the fields of Verif.CycleConsts (Verif/Impl/Consts.lean); nil when unreadable
+func loadKnownConsts(outDir string) map[string]bool {
+	data, err := os.ReadFile(filepath.Join(outDir, "..", "Impl", "Consts.lean"))
+	if err != nil {
+		return nil
+	}
+	res := map[string]bool{}
+	in := false
+	for _, line := range strings.Split(string(data), "\n") {
+		if strings.HasPrefix(line, "structure CycleConsts") {
+			in = true
+			continue
+		}
+		if in {
+			f := strings.Fields(line)
+			if len(f) == 3 && f[1] == ":" && f[2] == "Nat" {
+				res[f[0]] = true
+			} else if len(res) > 0 {
+				break
+			}
+		}
+	}
+	if len(res) < 50 {
+		return nil
+	}
+	return res
+}
+
 func leanOpTable(name string, t map[int]string) string {
 	var b strings.Builder
 	fmt.Fprintf(&b, "def %s (opc : Byte) : Option H :=\n  match opc.toNat with\n", name)
@@ -207,7 +257,12 @@ func leanOpTable(name string, t map[int]string) string {
 	}
 	sort.Ints(keys)
 	for _, k := range keys {
-		fmt.Fprintf(&b, "  | 0x%02X => some .%s\n", k, t[k])
+		h := t[k]
+		if knownHandlers != nil && !knownHandlers[h] {
+			// a function (or function literal) the Lean model has no definition for
+			h = "other"
+		}
+		fmt.Fprintf(&b, "  | 0x%02X => some .%s\n", k, h)
 	}
 	b.WriteString("  | _ => none\n\n")
 	return b.String()
@@ -325,6 +380,7 @@ func exprString(e ast.Expr) string {
 const header = "-- GENERATED by harness/cmd/extract from /repo's Go sources on every run of a check.\n-- Do not edit: the committed copy is the baseline used when extraction fails.\n"
 
 func doCpu(repo, outDir string) {
+	loadKnownHandlers(outDir)
 	files := parseDir(filepath.Join(repo, "cpu"))
 	fns := funcs(files)
 	newFn, ok := fns["New6502"]
@@ -379,14 +435,26 @@ func doCpu(repo, outDir string) {
 			names = append(names, k)
 		}
 		sort.Strings(names)
+		knownConsts := loadKnownConsts(outDir)
+		skipped := []string{}
 		for _, n := range names {
 			for i, r := range rets[n] {
 				ex := ""
 				if len(r.extras) > 0 {
 					ex = "  -- + " + strings.Join(r.extras, " + ")
 				}
-				fmt.Fprintf(&b, "  %s_%d := %d%s\n", n, i, r.lit, ex)
+				field := fmt.Sprintf("%s_%d", n, i)
+				if knownConsts != nil && !knownConsts[field] {
+					// a return statement of a function the model has no definition for (its table entry,
+					// if any, is `.other`): not a field of CycleConsts
+					skipped = append(skipped, fmt.Sprintf("%s := %d", field, r.lit))
+					continue
+				}
+				fmt.Fprintf(&b, "  %s := %d%s\n", field, r.lit, ex)
 			}
+		}
+		if len(skipped) > 0 {
+			b.WriteString("\n-- not part of the model: " + strings.Join(skipped, ", ") + "\n")
 		}
 		b.WriteString("\nend Verif.Generated\n")
 		writeIfChanged(filepath.Join(outDir, "Cycles.lean"), b.String())
